@@ -35,7 +35,8 @@ def base_spec(b, start):
     elif b["cal"] == "split":
         r1["hours"] = [("mon, wed, fri", ["8:00 - 12:00", "13:00 - 16:00"]), ("sat", ["10:00 - 14:00"])]
     if b["lv"] == "res":
-        r1["leaves"] = [{"k": "leaves", "type": "annual", "a": D(start, 2)}, {"k": "vacation", "a": D(start, 8), "b": D(start, 10)}]
+        r1["leaves"] = [{"k": "leaves", "type": "annual", "a": D(start, 2)}, {"k": "vacation", "a": D(start, 8), "b": D(start, 10)},
+                        {"k": "booking", "a": D(start, 4, "-09:00"), "b": "+6h"}]
     elif b["lv"] == "proj":
         spec["vacations"] = [(D(start, 1), D(start, 3))]
         spec["gleaves"] = [("holiday", D(start, 9), None)]
